@@ -1,4 +1,4 @@
-(** Property C17 — pinned statements (tools/pin.py); proofs in Runtime/TokenBuffer.v, Runtime/TokenStream.v (faithful models of TokenIter, TokenBuffer::add, TokenStream, handle_additional_tokens, LRParser::call_action/pop_n). *)
+(** Property C17 — pinned statements (tools/pin.py); proofs in Runtime/TokenBuffer.v, Runtime/TokenStream.v (faithful models of TokenIter, TokenBuffer::add, TokenStream (after the fix: commits), handle_additional_tokens, LRParser::call_action/pop_n; *_old = pinned commit). *)
 From Coq Require Import List NArith.
 From Parol Require Import Runtime.TokenBuffer Runtime.TokenStream.
 Import ListNotations.
@@ -62,30 +62,29 @@ Theorem C17_lr_skip_listed_refuted :
   exists
   (skips : list (list N)) (len1 : N) (ms1 : list smatch) (len2 : N) 
   (ms2 : list smatch) (its : list lr_iter),
-  same_view N t_type (stream_tokens skips len1 0 ms1 1) (stream_tokens skips len2 0 ms2 1) /\
+  same_view N t_type (stream_tokens_old skips len1 0 ms1 1)
+  (stream_tokens_old skips len2 0 ms2 1) /\
   parser_input skips ms1 = parser_input skips ms2 /\
   map (pobs N t_type)
   (snd
-  (lr_run is_skip_token stream (real_impl skips) its
-  (stream_new skips len1 0 ms1 1, [], []))) <>
+  (lr_run lr_skip_pred_old stream (real_impl_old skips) its
+  (stream_new_old skips len1 0 ms1 1, [], []))) <>
   map (pobs N t_type)
   (snd
-  (lr_run is_skip_token stream (real_impl skips) its
-  (stream_new skips len2 0 ms2 1, [], []))).
+  (lr_run lr_skip_pred_old stream (real_impl_old skips) its
+  (stream_new_old skips len2 0 ms2 1, [], []))).
 Proof. exact lr_skip_listed_refuted. Qed.
 
-Theorem C17_comments_once_in_order :
+Theorem C17_comments_once_in_order_all_k :
   forall (skips : list (list N)) (len fm : N) (ms : list smatch) (k0 : nat) (ops : list op),
-  1 <= k0 ->
   comment_trace (run skips (stream_new skips len fm ms k0) ops) ++
   comments_of (spec_state (PeanoNat.Nat.max 1 k0) (stream_tokens skips len fm ms k0) ops) =
   comments_of (all_tokens skips len ms).
-Proof. exact comments_once_in_order. Qed.
+Proof. exact comments_once_in_order_all_k. Qed.
 
-Theorem C17_comments_all_delivered :
+Theorem C17_comments_all_delivered_all_k :
   forall (skips : list (list N)) (len fm : N) (ms : list smatch) (k0 : nat) 
   (ops : list op) (t : token),
-  1 <= k0 ->
   types_ok ms = true ->
   last (run skips (stream_new skips len fm ms k0) (ops ++ [OpTakeSkip; OpLookahead 0]))
   (EvSkip []) = EvLook (inr t) ->
@@ -93,11 +92,20 @@ Theorem C17_comments_all_delivered :
   comment_trace
   (run skips (stream_new skips len fm ms k0) (ops ++ [OpTakeSkip; OpLookahead 0])) =
   comments_of (all_tokens skips len ms).
-Proof. exact comments_all_delivered. Qed.
+Proof. exact comments_all_delivered_all_k. Qed.
 
 Theorem C17_call_action_spec :
   forall (P : token -> bool) (n : nat) (nt : N) (stack : list lrtree),
   fst (call_action P n nt stack) = rev (firstn n (sview P stack)) /\
   sview P (snd (call_action P n nt stack)) = ArgN nt :: skipn n (sview P stack).
 Proof. exact call_action_spec. Qed.
+
+Theorem C17_stream_k_independent :
+  forall (skips : list (list N)) (len fm : N) (ms : list smatch) (k1 k2 : nat) (ops : list op),
+  is_state_skip skips EOI fm = false ->
+  (forall n : nat,
+  In (OpLookahead n) ops -> n < PeanoNat.Nat.max 1 k1 /\ n < PeanoNat.Nat.max 1 k2) ->
+  map norm_event (run skips (stream_new skips len fm ms k1) ops) =
+  map norm_event (run skips (stream_new skips len fm ms k2) ops).
+Proof. exact stream_k_independent. Qed.
 
